@@ -57,6 +57,14 @@ func c13Calls() []c13Call {
 			}
 		}
 	}
+	// values of nodes (string-values, comparisons of node-sets, sums) on both
+	// documents: a cache of derived values keyed by something that is unique
+	// only within one document (a position) shows across documents
+	for _, t := range []string{"//b = //c", "//b != //c", "/*/*[1] = /*/*[2]", "count(//*[. = //c])", "sum(//c)", "string(//b)", "count(//*[. = ''])", "//@* = //c", "string-length(/)", "count(//*[b = c])"} {
+		for d := 0; d < 2; d++ {
+			out = append(out, c13Call{t, d, "/"})
+		}
+	}
 	return out
 }
 
